@@ -155,7 +155,13 @@ type incGen struct {
 	n int
 }
 
-func (ig *incGen) name() string { ig.n++; return fmt.Sprintf("inc%d", ig.n) }
+func (ig *incGen) name() string {
+	ig.n++
+	if ig.n%4 == 3 {
+		return fmt.Sprintf("inc-5.x_v%d", ig.n) // a dot in the base name: the .ra extension is still added when it is missing
+	}
+	return fmt.Sprintf("inc%d", ig.n)
+}
 
 // file creates an include file and returns its name. depth limits nested includes.
 func (ig *incGen) file(depth int, cmdSafe, allowAffix bool, feats map[string]bool) string {
@@ -173,7 +179,7 @@ func (ig *incGen) file(depth int, cmdSafe, allowAffix bool, feats map[string]boo
 	}
 	defName := ""
 	if !cmdSafe && core.Chance(r, 1, 3) {
-		defName = fmt.Sprintf("%s-d", name)
+		defName = fmt.Sprintf("incdef%d-d", ig.n)
 		if core.Chance(r, 1, 2) {
 			// the same name in several files (and possibly in the including file), each with its own value
 			defName = "shared-d"
@@ -199,6 +205,10 @@ func (ig *incGen) file(depth int, cmdSafe, allowAffix bool, feats map[string]boo
 			}
 			if core.Chance(r, 1, 10) {
 				e = "{{main-d}}" + e // resolved by the including file's definitions, if it has that name
+			}
+			if core.Chance(r, 1, 7) {
+				e += core.Pick(r, " ", "  ", "\t") // trailing white space belongs to the entry, also on the last line of a file
+				feats["inc-trailing-blank"] = true
 			}
 		}
 		sb.WriteString(ind() + e + "\n")
@@ -257,6 +267,11 @@ func c05Gen(rng *rand.Rand) *metaCase {
 			f := ig.file(1, false, true, feats)
 			p.Files.Include["dia1"] = "diaone\n##!> include " + f + "\n"
 			p.Files.Include["dia2"] = "##!> include " + f + ".ra\ndiatwo\n"
+			if core.Chance(rng, 1, 2) {
+				// the first reference rewrites suffixes or excludes entries, the later ones are plain
+				p.Files.Exclude["nothing"] = "notlisted\n"
+				ls = append(ls, core.Pick(rng, "##!> include "+f+" -- x YY s \"\"", "##!> include-except "+f+" nothing"), "##!=>")
+			}
 			ls = append(ls, "##!> include "+f, "between", "##!=>", "##!> include "+f+".ra", "##!> include dia1", "##!> include dia2")
 		}
 		for k := 1 + rng.Intn(2); k > 0; k-- {
@@ -289,7 +304,7 @@ func c05Gen(rng *rand.Rand) *metaCase {
 	}
 	// a name that only an include file defines stays literal in the including file
 	if feats["inc-definition"] && core.Chance(rng, 1, 2) {
-		ls = append(ls, "lit{{inc1-d}}x")
+		ls = append(ls, "lit{{incdef1-d}}x")
 		feats["reference-to-include-only-name"] = true
 	}
 	p.Main = strings.Join(ls, "\n") + "\n"
@@ -445,6 +460,17 @@ func c06Gen(rng *rand.Rand) *metaCase {
 		main = append(main, "##!> include flist"+pairs)
 		feats["include-with-pairs"] = true
 	}
+	// the same exclude file used for two include files that define the same name differently
+	if core.Chance(rng, 1, 4) {
+		p.Files.Include["ctxa"] = "##!> define ctx unix\n{{ctx}}shell\n{{ctx}}noisy\n{{ctx}}editor\n"
+		p.Files.Include["ctxb"] = "##!> define ctx win\n{{ctx}}shell\n{{ctx}}noisy\n{{ctx}}editor\n"
+		p.Files.Exclude["ctxnoisy"] = "{{ctx}}noisy\n"
+		main = append(main, "##!> include-except ctxa ctxnoisy", "##!> include-except ctxb ctxnoisy")
+		if core.Chance(rng, 1, 2) {
+			main = append(main, "##!> include ctxnoisy")
+		}
+		feats["exclude-file-in-two-contexts"] = true
+	}
 	// an include file with its own prefix/suffix (so its text carries directive lines) and pairs whose keys end those lines
 	if core.Chance(rng, 1, 4) {
 		p.Files.Include["withaffix"] = "##!^ " + core.Pick(rng, `\b`, "pre") + "\n##!$ " + core.Pick(rng, `\b`, "post") + "\nalphax\nbetae\ngamma>\ndelta<\n"
@@ -469,7 +495,7 @@ func c07Gen(rng *rand.Rand) *metaCase {
 	// acyclic reference graph: definition i may refer to definitions with a larger index
 	vals := make([]string, nd)
 	for i := range names {
-		v := core.Pick(rng, "abc", `\d{2}`, `[a-c]+`, `a{2}`, `[{]`, `(?:x|y)`, `(?:m|n)`, `\.`, `q?`, `\$_get`, `[$a-z_][$\w]*`, `a{1,2}${3}`, `\$1`, `$`, `[^{}]`, `w{1,3}`)
+		v := core.Pick(rng, "abc", `\d{2}`, `[a-c]+`, `a{2}`, `[{]`, `(?:x|y)`, `(?:m|n)`, `\.`, `q?`, `\$_get`, `[$a-z_][$\w]*`, `a{1,2}${3}`, `\$1`, `$`, ",", `\.`, "x", "3", "é", `[^{}]`, `w{1,3}`)
 		if i+1 < nd && core.Chance(rng, 1, 2) {
 			v += "{{" + names[i+1+rng.Intn(nd-i-1)] + "}}"
 			feats["nested-definition"] = true
@@ -500,7 +526,7 @@ func c07Gen(rng *rand.Rand) *metaCase {
 	}
 	for k := 1 + rng.Intn(4); k > 0; k-- {
 		w := g.WordList(1)[0]
-		switch rng.Intn(5) {
+		switch rng.Intn(6) {
 		case 0:
 			body = append(body, w)
 		case 1:
@@ -510,6 +536,10 @@ func c07Gen(rng *rand.Rand) *metaCase {
 			body = append(body, "##!> assemble", "  "+ref()+w, "  ##!=>", "  "+w+"2", "##!<")
 		case 3:
 			body = append(body, ref())
+		case 4:
+			// a reference directly behind an opening brace: a{<ref>} and an escaped brace in front of a reference
+			feats["reference-behind-brace"] = true
+			body = append(body, core.Pick(rng, w+"{"+ref()+"}", w+`\{`+ref()+`\}`, "[a-f]{"+ref()+",9}"))
 		default:
 			body = append(body, w+"{"+core.Pick(rng, "2", "1,3")+"}"+ref())
 		}
@@ -578,7 +608,7 @@ func init() {
 		Rule: "including programs (include at top level beside entries and markers, inside an assemble block with markers and stored names, inside a cmdline block; optional flags and own definitions) x generated include files (word lists with comments, blank lines, indentation; own prefixes and/or suffixes; own definitions; nested includes to depth 3; placed in include/ or exclude/; referenced with and without .ra) are compiled by the built CLI and compared with the same program in which the harness's spec-level inliner typed the lines in place. " +
 			"Oracle: identical stdout (bytes first, otherwise exact language comparison with confirmed witness); a reference to a name that only an include file defines stays literal on both sides; an include file that carries a flags line (directly or one level deeper) must make generate fail with empty stdout. Non-trivial = the inlined program differs from the original.",
 		Cases: func(env *core.Env, rng *rand.Rand) []core.Case {
-			n := env.N(500, 12000)
+			n := env.N(1500, 15000)
 			var cs []core.Case
 			for i := 0; i < n; i++ {
 				if i%12 == 11 {
@@ -601,7 +631,7 @@ func init() {
 		Rule: "generated `include-except F X1..Xn [-- pairs]` programs: F is a word list with duplicates, blank lines, comments and own definitions; 1..3 exclude files (empty, disjoint, overlapping, superset; in include/ or exclude/; with and without .ra); 0..4 suffix-replacement pairs including \"\" deletions and replacements that end in another pair's key (no key is a suffix of another key); at top level or inside a block; sometimes a plain include with the same pairs. " +
 			"Oracle: stdout equals that of the program in which the harness wrote the surviving, rewritten entries by hand (F's entries after F's own definition expansion, minus every entry of every Xi, original order, each pair applied once to the original ending): byte-identical when F has no duplicate entry, exact language equality otherwise. Non-trivial = the hand-written program differs from the original.",
 		Cases: func(env *core.Env, rng *rand.Rand) []core.Case {
-			n := env.N(500, 12000)
+			n := env.N(1500, 15000)
 			var cs []core.Case
 			for i := 0; i < n; i++ {
 				m := c06Gen(rng)
@@ -620,7 +650,7 @@ func init() {
 		Rule: "generated programs with 0..6 definitions (acyclic reference graphs; values with metacharacters, quantifier braces and alternations; names with '-' and '_'), references in entries, inside blocks, in prefix and suffix lines, in included text and in an include file's own prefix line, plus references to undefined names; definition lines placed anywhere with varying spacing. " +
 			"Oracle: stdout is byte-identical to that of the program in which the harness expanded every reference textually (undefined names stay literal, definition lines removed) and byte-identical for every permutation of the definition lines (all permutations up to 4 definitions, 24 sampled beyond). Non-trivial = at least one definition and the expanded program differs.",
 		Cases: func(env *core.Env, rng *rand.Rand) []core.Case {
-			n := env.N(400, 8000)
+			n := env.N(1000, 8000)
 			var cs []core.Case
 			for i := 0; i < n; i++ {
 				m := c07Gen(rng)
